@@ -1,6 +1,7 @@
 import Rustemo.Model.Dump
 import Rustemo.Model.Print
 import Rustemo.Model.Cert
+import Rustemo.Driver.Regen
 /-!
 Line-protocol driver: one request per line on stdin, one answer per line on stdout.
 
@@ -30,6 +31,7 @@ def handle (st : DState) (line : String) : DState × String :=
     | ["structural", a, b] =>
       (st, if Cert.structural st.dump.grammar st.dump.table (natOf a) (natOf b) then "1" else "0")
     | _ => (st, "bad-request")
+  | "regen" => (st, Rustemo.Regen.handleRegen rest)
   | "rawdet" => (st, if st.dump.table.rawDeterministic st.dump.grammar then "1" else "0")
   | "lr" =>
     match rest.splitOn " #" with
